@@ -340,22 +340,15 @@ class FlatSet : private Compare {
 
   template <class C2, typename std::enable_if<!std::is_same<Compare, C2>::value, bool>::type = true>
   void merge(FlatSet<T, C2, Alloc, VecType> &o) {
-    for (miterator oit = o.mbegin(); oit != o.mend();) {
-      miterator lbIt = std::lower_bound(mbegin(), mend(), *oit, compRef());
-      if (lbIt == mend()) {
-        _sortedVector.push_back(std::move(*oit));
-        oit = o._sortedVector.erase(oit);
-      } else if (compRef()(*oit, *lbIt)) {
-        _sortedVector.insert(lbIt, std::move(*oit));
-        oit = o._sortedVector.erase(oit);
-      } else {
-        // equal
-        ++oit;
-      }
-    }
+    merge_by_insertion(o);
   }
 
   void merge(FlatSet &o) {
+    if (!std::is_empty<Compare>::value) {
+      // the two comparator objects may order the elements differently: the linear merge below needs a common order
+      merge_by_insertion(o);
+      return;
+    }
     // Do not use std::inplace_merge to avoid allocating memory if not needed
     miterator first1 = mbegin(), last1 = mend();
     miterator first2 = o.mbegin(), last2 = o.mend();
@@ -481,6 +474,24 @@ class FlatSet : private Compare {
     }
     // hint does not bring any valuable information, use standard insert
     return insert(std::forward<V>(v)).first;
+  }
+
+  /// Merge by inserting the elements of 'o' one by one (no assumption on the order of 'o')
+  template <class OtherFlatSet>
+  void merge_by_insertion(OtherFlatSet &o) {
+    for (miterator oit = o.mbegin(); oit != o.mend();) {
+      miterator lbIt = std::lower_bound(mbegin(), mend(), *oit, compRef());
+      if (lbIt == mend()) {
+        _sortedVector.push_back(std::move(*oit));
+        oit = o._sortedVector.erase(oit);
+      } else if (compRef()(*oit, *lbIt)) {
+        _sortedVector.insert(lbIt, std::move(*oit));
+        oit = o._sortedVector.erase(oit);
+      } else {
+        // equal
+        ++oit;
+      }
+    }
   }
 
   Compare &compRef() { return static_cast<Compare &>(*this); }
